@@ -1,5 +1,6 @@
 import Qsx.Model.Wire
 import Qsx.Model.Verdict
+import Qsx.Model.LinAlg
 import Qsx.Model.Driver
 import Qsx.Model.Num
 import Qsx.Model.BasisFile
@@ -314,6 +315,50 @@ def answer (cx : Ctx) (toks : List String) : Ctx × List String :=
             s!"opt {b2s (Qsx.Verdict.optimalVerdict P cs rs b)}",
             s!"dbound {fmtRat cx (Qsx.Verdict.dualBound P cs rs b)}",
             s!"objv {fmtRat cx (P.objv (rget b.x) (rget b.s))}"]).run' rest
+    (cx, r.getD ["bad-op"])
+  | "linsess" :: rest =>
+    -- C13: linsess n <B row-major n*n> m {f <a> <x> | b <c> <y> | r i <r> | k <v> | u p <a>}*m
+    let r : Option (List String) := (do
+      let n ← pNat
+      let rows ← pMany n (pMany n (pRat cx))
+      let m ← pNat
+      let mut M : Qsx.LinAlg.Mat := { rows := rows }
+      let mut out : List String := []
+      for _ in [0:m] do
+        let k ← pTok
+        let B : Nat → Nat → Rat := M.at
+        if k == "f" then
+          let a ← pMany n (pRat cx); let x ← pMany n (pRat cx)
+          out := out ++ [if Qsx.LinAlg.solveOK n B (rget x) (rget a) then "f 1" else "f 0"]
+        else if k == "b" then
+          let c ← pMany n (pRat cx); let y ← pMany n (pRat cx)
+          out := out ++ [if Qsx.LinAlg.tsolveOK n B (rget y) (rget c) then "b 1" else "b 0"]
+        else if k == "r" then
+          let i ← pNat; let rr ← pMany n (pRat cx)
+          out := out ++ [if Qsx.LinAlg.unitRowOK n B i (rget rr) then "r 1" else "r 0"]
+        else if k == "k" then
+          let v ← pMany n (pRat cx)
+          out := out ++ [if Qsx.LinAlg.kernelOK n B (rget v) then "k 1" else "k 0"]
+        else if k == "u" then
+          let p ← pNat; let a ← pMany n (pRat cx)
+          M := { rows := (Array.range n).map fun i => (Array.range n).map fun kk => Qsx.LinAlg.replaceCol B p (rget a) i kk }
+          out := out ++ ["u 1"]
+        else failure
+      pure out).run' rest
+    (cx, r.getD ["bad-op"])
+  | "tabcheck" :: rest =>
+    -- C13: tabcheck n nall <A row-major n*nall> <ord n> i <r n> <t nall>
+    let r : Option (List String) := (do
+      let n ← pNat; let nall ← pNat
+      let rows ← pMany n (pMany nall (pRat cx))
+      let ord ← pMany n pNat
+      let i ← pNat
+      let rr ← pMany n (pRat cx); let t ← pMany nall (pRat cx)
+      let M : Qsx.LinAlg.Mat := { rows := rows }
+      let okOrd := (ord.toList.all (· < nall))
+      pure [s!"ord {if okOrd then 1 else 0}",
+            s!"unitrow {if Qsx.LinAlg.unitRowOK n (Qsx.LinAlg.basisOf M.at (nget ord)) i (rget rr) then 1 else 0}",
+            s!"tabrow {if Qsx.LinAlg.tabRowOK n nall M.at (rget rr) (rget t) then 1 else 0}"]).run' rest
     (cx, r.getD ["bad-op"])
   | "tointernal" :: rest =>
     let r : Option (List String) := (do
